@@ -9,11 +9,12 @@ EXPLANATION = (
     "(R-EXIT) complete list of accessors, drop(tx) before join before the final read; (R-WORKERS) one send per "
     "worker. (R-FS) file contents: the only file-system mutation anywhere is the single fs::write of format_file, and its "
     "target is the very path the worker read - no worker creates, renames or writes a file name another worker could "
-    "also touch (a shared temporary name is an interference between workers, invisible with one thread). With these the "
+    "also touch (a shared temporary name is an interference between workers, invisible with one thread). (R-NOSTATE) the library keeps no static / thread-local cell, lock, atomic or once-initialised value "
+    "except compiled regular expressions, so a worker that formats several files carries nothing from one to the next. With these the "
     "status is a max over a schedule-independent set of events and every file is written by exactly one worker.")
 ASSUMPTIONS = ["SeqCst atomics; threadpool::join waits for all queued jobs",
                "rustc MIR and Instance::try_resolve are trusted"]
 
 
 def run(ctx):
-    return [r_cli.rule_atomic(ctx, "C19"), r_cli.rule_exit(ctx, "C19"), r_cli.rule_workers(ctx, "C19"), r_cli.rule_fs(ctx, "C19")]
+    return [r_cli.rule_atomic(ctx, "C19"), r_cli.rule_exit(ctx, "C19"), r_cli.rule_workers(ctx, "C19"), r_cli.rule_fs(ctx, "C19"), r_cli.rule_no_state(ctx, "C19")]
